@@ -19,6 +19,7 @@
         GRND  sendTo('sysA', SPG): the child spawns a grandchild (id g1, systemId sysG) with a heartbeat
         GSND  sendTo('sysG', GP#n): the grandchild answers its parent with sendTo('sysA', GACK#n)
         KFIN  sendTo('n', FIN): child 'n' reaches its top-level final state
+        AFIN  sendTo('sysA', FIN): child 'a' reaches its final state (while it may still own a running grandchild)
         ADV   30 ms of virtual time
         STOP  parent.stop()
       Oracle (reference registry written from the docstring of
@@ -49,7 +50,7 @@ EXPLANATION = (
 )
 NONTRIVIAL_RULE = "the sequence contains at least one send-like operation"
 BOUNDS = {
-    "actor_seq": "parent machine PM; operation sequences of length N (item label; prefix fixed per item) over 18 operations; 8 addressing forms; tree depth <= 2 (grandchild), fan-out <= 4; both engines (sync: blocking spawns + one non-blocking spawn whose polling runner is a baton-passing coroutine, delayed sends on virtual threads)",
+    "actor_seq": "parent machine PM; operation sequences of length N (item label; prefix fixed per item) over 19 operations; 8 addressing forms; tree depth <= 2 (grandchild), fan-out <= 4; both engines (sync: blocking spawns + one non-blocking spawn whose polling runner is a baton-passing coroutine, delayed sends on virtual threads)",
 }
 ASSUMPTIONS = [
     "virtual time as in C08; the sync engine's non-blocking runner thread (child.start(); while running: time.sleep(0.01)) runs as a coroutine on a real OS thread with baton passing (exactly one of main/poller runs at a time, time.sleep yields to the virtual scheduler): pre-emptive interleavings are outside",
@@ -58,7 +59,7 @@ ASSUMPTIONS = [
 ]
 WALL_BUDGET = {"quick": 900.0, "thorough": 3300.0}
 
-OPS = ["SPA", "SPB", "SPK", "SPN", "SEND", "DSEND", "DSND2", "CANC", "STPA", "FWD", "PING", "LATR", "ESC", "GRND", "KFIN", "ADV", "STOP", "GSND"]
+OPS = ["SPA", "SPB", "SPK", "SPN", "SEND", "DSEND", "DSND2", "CANC", "STPA", "FWD", "PING", "LATR", "ESC", "GRND", "KFIN", "ADV", "STOP", "GSND", "AFIN"]
 FORMS = ["m:a", "a", "sysA", "kid", "nosuch", "<callable>", "b", "n"]
 SENDLIKE = ("SEND", "DSEND", "DSND2", "FWD", "PING", "LATR", "ESC", "GSND")
 CTL: Dict[str, Any] = {}
@@ -136,6 +137,7 @@ def _machine(eng: int) -> Any:
                 "ESC": {"actions": [A.send_to("sysA", "ESC")]},
                 "GRND": {"actions": [A.send_to("sysA", "SPG")]},
                 "KFIN": {"actions": [A.send_to("n", "FIN")]},
+                "AFIN": {"actions": [A.send_to("sysA", "FIN")]},
                 "GSND": {"actions": [{"type": "xstate.sendTo", "params": lambda a: {"to": "sysG", "event": {"type": "GP", "n": a["event"].payload["n"]}}}]},
                 "PONG": {"actions": ["pong"]},
                 "LATE": {"actions": ["pong"]},
@@ -325,6 +327,8 @@ def _run(eng: int, ops: List[str], forms: List[Any]) -> Optional[str]:
                 ref.kill(cands[0])
         else:
             cands, _opt = ref.resolve("n" if op == "KFIN" else "sysA")
+            if op == "AFIN":
+                op = "KFIN"      # same effect on the reference: the addressed child reaches its final state
             a = cands[0] if cands and cands[0]["alive"] else None
             if op == "FWD":
                 state["seq"] += 1
